@@ -316,6 +316,26 @@ def digest_state(state, spec):
     return d
 
 
+def digest_sch(state):
+    return {
+        "host2comp": sorted([un_h(h), c] for h, c in state.host2component.items()),
+        "weight": [c.weight for c in state.components],
+        "distDom": [sorted(un_w(w) for w in c.worker2task_distance.keys()) for c in state.components],
+        "values": [sorted(int(t[1:]) for t in c.worker2task_values) for c in state.components],
+        "ovDom": sorted([un_w(w), sorted(int(t[1:]) for t in m.keys())] for w, m in state.worker2task_overhead.items() if m),
+    }
+
+
+def canon_model_sch(m):
+    return {
+        "host2comp": sorted(m["host2comp"]),
+        "weight": m["weight"],
+        "distDom": [sorted(x) for x in m["distDom"]],
+        "values": [sorted(x) for x in m["values"]],
+        "ovDom": sorted([w, sorted(ts)] for w, ts in m["ovDom"] if ts),
+    }
+
+
 def canon_model_ctl(m):
     m = dict(m)
     for k in ("idle", "ongoing", "purgeQ", "fetchIssued", "outputs", "hostDs", "dsHost", "workerDs", "computable"):
@@ -344,18 +364,42 @@ def run_case(spec, ws, seed, fifo, none_output=None, max_rounds=None, alarm_s=10
               "ext": spec["ext"], "workers": ws}]
     br = SimBridge(spec, ws, rng, fifo, trace, none_output)
     res = {"trace": trace, "spec": spec, "workers": ws, "seed": seed, "fifo": fifo}
-    cur = {"asg": [], "state": None, "rounds": 0}
+    cur = {"asg": [], "state": None, "rounds": 0, "events": [], "heur": 0}
+    import cascade.scheduler.assign as sassign
     bound = max_rounds or (40 * (len(spec["tasks"]) + sum(t["nOut"] for t in spec["tasks"])) + 60)
 
     def w_init(env, pre, outs):
         st = sapi.initialize(env, pre, outs)
         cur["state"] = st
+        trace[0]["comp"] = [st.ts2component[tname(i)] for i in range(len(spec["tasks"]))]
+        trace[0]["ncomp"] = len(st.components)
+        trace[0]["impl_sch"] = digest_sch(st)
         return st
 
     def w_assign(state, job_, env):
         for a in sapi.assign(state, job_, env):
             cur["asg"].append(a)
+            cur["events"].append({"k": "asg", "w": un_w(a.worker), "t": int(a.tasks[0][1:]),
+                                  "cands": [un_ds(p[0]) + [un_h(p[1])] for p in a.prep if p[1] != a.worker.host]})
             yield a
+
+    o_awc, o_mig, o_heur = sapi.assign_within_component, sapi.migrate_to_component, sassign._assignment_heuristic
+
+    def w_awc(state, workers, component_id, job_, env):
+        cur["events"].append({"k": "awc", "c": component_id, "ws": [un_w(w) for w in workers]})
+        cur["heur"] = 0
+        yield from o_awc(state, workers, component_id, job_, env)
+        cur["events"].append({"k": "awcend"})
+
+    def w_heur(state, tasks, workers, component_id):
+        cur["events"].append({"k": "heur", "cls": "gpu" if cur["heur"] == 0 else "cpu"})
+        cur["events"].append({"k": "heur2"})
+        cur["heur"] += 1
+        yield from o_heur(state, tasks, workers, component_id)
+
+    def w_mig(host, component_id, state):
+        cur["events"].append({"k": "migrate", "h": un_h(host), "c": component_id})
+        return o_mig(host, component_id, state)
 
     def w_plan(state, assignments):
         cur["rounds"] += 1
@@ -368,8 +412,10 @@ def run_case(spec, ws, seed, fifo, none_output=None, max_rounds=None, alarm_s=10
         asg = [{"w": un_w(a.worker), "t": int(a.tasks[0][1:]), "ntasks": len(a.tasks),
                 "cands": [un_ds(p[0]) + [un_h(p[1])] for p in a.prep if p[1] != a.worker.host],
                 "prep": sorted(un_ds(p[0]) + [un_h(p[1])] for p in a.prep)} for a in cur["asg"]]
-        trace.append({"op": "round", "asg": asg, "impl": {"ctl": digest_state(st, spec), "cmds": br.cmds}})
+        trace.append({"op": "round", "asg": asg, "events": cur["events"],
+                      "impl": {"ctl": digest_state(st, spec), "cmds": br.cmds, "sch": digest_sch(st)}})
         cur["asg"] = []
+        cur["events"] = []
         br.cmds = []
         return st
 
@@ -379,11 +425,12 @@ def run_case(spec, ws, seed, fifo, none_output=None, max_rounds=None, alarm_s=10
         except Exception as e:
             trace[-1]["impl"] = {"crash": f"{type(e).__name__}: {e}"}
             raise
-        trace[-1]["impl"] = {"ctl": digest_state(st, spec)}
+        trace[-1]["impl"] = {"ctl": digest_state(st, spec), "sch": digest_sch(st)}
         return st
 
     saved = (impl.initialize, impl.assign, impl.plan, impl.flush_queues, impl.notify)
     impl.initialize, impl.assign, impl.plan, impl.flush_queues, impl.notify = w_init, w_assign, w_plan, w_flush, w_notify
+    sapi.assign_within_component, sapi.migrate_to_component, sassign._assignment_heuristic = w_awc, w_mig, w_heur
 
     def on_alarm(*a):
         raise Livelock()
@@ -408,6 +455,8 @@ def run_case(spec, ws, seed, fifo, none_output=None, max_rounds=None, alarm_s=10
         signal.alarm(0)
         signal.signal(signal.SIGALRM, old)
         impl.initialize, impl.assign, impl.plan, impl.flush_queues, impl.notify = saved
+        sapi.assign_within_component, sapi.migrate_to_component, sassign._assignment_heuristic = o_awc, o_mig, o_heur
+    res["comp"] = cur.get("comp")
     res["outcome"] = outcome
     res["viol"] = br.viol
     res["shutdowns"] = br.shutdowns
@@ -458,7 +507,7 @@ def oracle(res, fifo):
 def model_lines(trace):
     lines = []
     for x in trace:
-        y = {k: v for k, v in x.items() if k not in ("impl", "final")}
+        y = {k: v for k, v in x.items() if k not in ("impl", "final", "impl_sch")}
         lines.append(json.dumps(y))
     return lines
 
@@ -499,6 +548,15 @@ def compare(trace, model_out):
                     return {"at": i, "op": {kk: v for kk, v in x.items() if kk != "impl"}, "field": k, "model": mc[k], "impl": ic[k]}
                 if k not in mc:
                     return {"at": i, "op": op, "field": k, "model": None, "impl": ic[k]}
+        if "sch" in m and "sch" in impl:
+            ms, isch = canon_model_sch(m["sch"]), impl["sch"]
+            for k in isch:
+                if ms[k] != isch[k]:
+                    return {"at": i, "op": {kk: v for kk, v in x.items() if kk not in ("impl", "events")}, "field": "sch." + k, "model": ms[k], "impl": isch[k]}
+            if m["sch"].get("schErr"):
+                return {"at": i, "op": op, "field": "schErr", "model": m["sch"]["schErr"], "impl": "no exception"}
+            if m.get("notes"):
+                return {"at": i, "op": {kk: v for kk, v in x.items() if kk not in ("impl",)}, "field": "assign-control-flow", "model": m["notes"], "impl": "performed"}
         if op == "round":
             if sorted(m.get("cmds", [])) != sorted(impl.get("cmds", [])):
                 return {"at": i, "op": {kk: v for kk, v in x.items() if kk != "impl"}, "field": "cmds", "model": sorted(m.get("cmds", [])), "impl": sorted(impl.get("cmds", []))}
